@@ -381,6 +381,8 @@ def c03(tier, seed, work):
         fams.append(dict(name="c03-group", insess=True, cmds="CmdsAGH", maxcalls=2, maxatt=2, kinds="KindsRetry", auth=a, integ=i))
         mc = [("MCConsole", "MC_Console_sess.cfg")]
     res = console_check("C03", tier, seed, work, mc, fams, COMMON_ASSUME, hs_fams=hs)
+    res = add_walk(res, work, [dict(name="c03-api", module="MCGenApi", cfg_tpl="Gen_Cipher.cfg.tpl", family="api", tier=tier, seed=seed)],
+                   "Every library command with its request fields inside a session (GenApi).")
     res["level"] = "exploration"
     res["coverage"]["rule"] = ("Every in-session datagram recorded from the real library is parsed by TLC (wrapper, integrity pad, "
                                "AuthCode verdict under the BMC-side K1, IV, ciphertext length, confidentiality pad, message checksums, "
@@ -525,6 +527,13 @@ def c06_vec(tier, seed, work):
 
 
 def c17(tier, seed, work):
+    res = c17_vec(tier, seed, work)
+    return add_walk(res, work, [dict(name="c17-api", module="MCGenApi", cfg_tpl="Gen_Cipher.cfg.tpl", family="api", tier=tier, seed=seed)],
+                    "Connection level: every command once on one connection / session in table order and in reverse order; the value decoded "
+                    "for each command in the reversed history must still agree with the specification (nothing survives from earlier responses).")
+
+
+def c17_vec(tier, seed, work):
     W = dict(module="MCGenWireVec")
     return vec_check("C17", tier, seed, work, [_vf("c17-reuse", "reuse", tier, seed), _vf("c17-message", "message", tier, seed, **W),
                                                _vf("c17-wrapper", "wrapper", tier, seed, **W)],
@@ -535,6 +544,12 @@ def c17(tier, seed, work):
 
 def c05(tier, seed, work):
     res = c05_vec(tier, seed, work)
+    a5, i5 = suite_for(seed, 8)
+    res = add_walk(res, work, [dict(name="c05-keyed", module="MCGenForge", cfg_tpl="Gen_Forge.cfg.tpl", family="forge", tier=tier, seed=seed,
+                                    extra_subst=dict(AUTH=a5, INTEG=i5))],
+                   "A party that knows the session keys: correctly signed and encrypted packets around every truncation of the inner "
+                   "message, a checksum-valid response without completion code, wrong checksums, malformed confidentiality payloads, "
+                   "other payload types.")
     res = add_walk(res, work, [dict(name="c05-discovery", module="MCGenCipher", cfg_tpl="Gen_Cipher.cfg.tpl", family="discovery", tier=tier, seed=seed),
                                dict(name="c05-sdr", module="MCGenSdr", cfg_tpl="Gen_Cipher.cfg.tpl", family="plain", tier="quick", seed=seed, opts={"exact": True})],
                    "Protocol positions: malformed and truncated cipher-suite record data during discovery; SDR walks with exact-capacity "
